@@ -59,6 +59,9 @@ pub fn angle_any() -> impl Strategy<Value = Option<f32>> + Clone {
         5 => (-std::f32::consts::PI..std::f32::consts::PI).prop_map(Some),
         1 => prop_oneof![(6.3f32..40.0), (-40.0f32..-6.3)].prop_map(Some),
         1 => (-0.01f32..0.01).prop_map(Some),
+        // many turns (an angle accumulated over time), tiny angles below the equality EPS
+        1 => prop_oneof![(40.0f32..2e4), (-2e4f32..-40.0)].prop_map(Some),
+        1 => prop_oneof![(1e-7f32..1e-5), (-1e-5f32..-1e-7)].prop_map(Some),
     ]
 }
 
